@@ -78,7 +78,12 @@ func (self FloatLiteralExpression) String() string {
 	}
 
 	// The lexer knows no exponent notation: print all digits.
-	return strconv.FormatFloat(self.Value, 'f', -1, 64)
+	digits := strconv.FormatFloat(self.Value, 'f', -1, 64)
+	if !strings.Contains(digits, ".") {
+		// Without a fraction the literal would lex as an integer.
+		digits += ".0"
+	}
+	return digits
 }
 
 //
